@@ -390,6 +390,15 @@ class PDFPageInterpreter:
         self.device = device
         # form XObjects that are being rendered right now (see do_Do)
         self.active_forms: FrozenSet[int] = frozenset()
+        # graphics state a form XObject starts from (see do_Do)
+        self.inherited_state: Optional[
+            Tuple[
+                PDFTextState,
+                PDFGraphicState,
+                Optional[PDFColorSpace],
+                Optional[PDFColorSpace],
+            ]
+        ] = None
 
     def dup(self) -> "PDFPageInterpreter":
         interpreter = self.__class__(self.rsrcmgr, self.device)
@@ -462,6 +471,12 @@ class PDFPageInterpreter:
         self.ncs: Optional[PDFColorSpace] = None
         if self.csmap:
             self.scs = self.ncs = next(iter(self.csmap.values()))
+        if self.inherited_state is not None:
+            # The contents of a form XObject are painted with the graphics
+            # state in force where it is invoked (ISO 32000-1 8.10.1).
+            (self.textstate, self.graphicstate, self.scs, self.ncs) = (
+                self.inherited_state
+            )
 
     def push(self, obj: PDFStackT) -> None:
         self.argstack.append(obj)
@@ -1227,6 +1242,12 @@ class PDFPageInterpreter:
                 return
             interpreter = self.dup()
             interpreter.active_forms = self.active_forms | {form_id}
+            interpreter.inherited_state = (
+                self.textstate.copy(),
+                self.graphicstate.copy(),
+                self.scs,
+                self.ncs,
+            )
             bbox = safe_rect_list([resolve1(v) for v in list_value(xobj["BBox"])])
             matrix_values = [
                 resolve1(v) for v in list_value(xobj.get("Matrix", MATRIX_IDENTITY))
